@@ -197,7 +197,13 @@ func (e *Variable) Assign(newVal reflect.Value, dataContext IDataContext, memory
 		err = e.Variable.ValueNode.SetObjectValueByField(e.Name, newVal)
 		if err == nil {
 			dataContext.IncrementVariableChangeCount()
-			memory.ResetVariable(e.resetTarget())
+			target := e.resetTarget()
+			if target == e && e.Variable.ValueNode.IsMap() {
+				// a member of a JSON object is the same cell as the map entry o["name"], which is read
+				// through another text: reset by the object, as for an assigned map entry
+				target = e.Variable
+			}
+			memory.ResetVariable(target)
 		}
 
 		return err
